@@ -108,6 +108,31 @@ def numfmt_cases(rng, n):
 
 # ------------------------------------------------------------------ programs
 
+def gen_edits(rng):
+    """rounds of in-place numpy edits of source data / bound primitive arrays; every round is
+    preceded by a write()"""
+    rounds = []
+    for _ in range(rng.choice([1, 1, 2])):
+        ops = []
+        for _ in range(rng.randint(1, 3)):
+            k = rng.choice(['scale', 'set', 'fill', 'add', 'vertex', 'vertex', 'normal'])
+            op = {'op': k, 'geom': rng.randrange(8), 'src': rng.randrange(8), 'prim': rng.randrange(8),
+                  'row': rng.randrange(64), 'col': rng.randrange(8)}
+            if k == 'scale':
+                op['k'] = rng.choice([2.0, 0.5, -1.0, 3.0, 1.0000001, c01gen.dec7(rng) or 2.0])
+            elif k == 'add':
+                op['k'] = rng.choice([1.0, -0.25, 1e-3, c01gen.dec7(rng)])
+            elif k == 'set':
+                op['v'] = c01gen.any_double(rng)
+            elif k == 'fill':
+                op['values'] = [c01gen.any_double(rng) for _ in range(rng.randint(1, 5))]
+            else:
+                op['v'] = [c01gen.any_double(rng) for _ in range(3)]
+            ops.append(op)
+        rounds.append(ops)
+    return rounds
+
+
 def gen_prog(rng, i):
     prog = c01gen.gen_program(rng, i)
     r = rng.random()
@@ -115,6 +140,55 @@ def gen_prog(rng, i):
         prog['_derive'] = 'ns15'
     elif r < 0.24:
         prog['_derive'] = 'noscene'
+    if prog['geometries'] and prog.get('_derive') != 'ns15' and rng.random() < 0.3:
+        prog['_edits'] = gen_edits(rng)
+    return prog
+
+
+def relocate_newparams(text, rng):
+    """schema-valid and common in exported files, never written by pycollada: (a suffix of) an
+    effect's <newparam> elements inside <technique> instead of <profile_COMMON>"""
+    import re
+    moved = [0]
+
+    def one(m):
+        block = m.group(0)
+        t = re.search(r'<((?:\w+:)?)technique\b[^>]*>', block)
+        if t is None or t.group(0).endswith('/>'):
+            return block
+        head, tail = block[:t.start()], block[t.end():]
+        params = list(re.finditer(r'<(?:\w+:)?newparam\b.*?</(?:\w+:)?newparam\s*>', head, re.S))
+        if not params:
+            return block
+        k = rng.randint(0, len(params) - 1) if rng.random() < 0.5 else 0     # move params[k:]
+        cut = params[k].start()
+        moved[0] += len(params) - k
+        kept = head[:cut] + re.sub(r'<(?:\w+:)?newparam\b.*?</(?:\w+:)?newparam\s*>', '', head[cut:], flags=re.S)
+        return kept + t.group(0) + ''.join(pm.group(0) for pm in params[k:]) + tail
+    out = re.sub(r'<(?:\w+:)?profile_COMMON\b.*?</(?:\w+:)?profile_COMMON\s*>', one, text, flags=re.S)
+    return out, moved[0]
+
+
+def gen_xml_prog(rng, i):
+    """a LOADED document the writer never produced: harness/gen/xmldocs.py (string templates;
+    strips, fans, several <p>, newparams inside <technique>, <param ref>, extras, odd number
+    formats, forward instance_node ...)"""
+    from harness.gen import xmldocs
+    ns = xmldocs.NS_15 if rng.random() < 0.08 else xmldocs.NS_141
+    data, desc = xmldocs.gen_document(rng, size=rng.choice([0, 1, 1, 2]), ns=ns)
+    text = data.decode('utf-8') if isinstance(data, bytes) else data
+    moved = 0
+    if rng.random() < 0.5:
+        text, moved = relocate_newparams(text, rng)
+    prog = {'xml': text, 'ns': ns, '_newparams_in_technique': moved,
+            'images': [], 'effects': [], 'materials': [], 'geometries': [], 'lights': [], 'cameras': [],
+            'nodes': [], 'scenes': [], 'scene': None}
+    # input-feature predicate of a known finding: a strip/fan whose <vertices> has further inputs
+    prog['_strip_with_vertices_inputs'] = any(
+        len(g['vertices']['inputs']) > 1 and any(pr['tag'] in ('tristrips', 'trifans') for pr in g['prims'])
+        for g in desc['geometries'] if g.get('vertices'))
+    if ns == xmldocs.NS_141 and rng.random() < 0.3:
+        prog['_edits'] = gen_edits(rng)
     return prog
 
 
@@ -154,9 +228,20 @@ def ns_of(rec):
     return st[0].get('ns') if st else None
 
 
-def clause_failures(rec, derived=None, root_ns=None):
+def clause_failures(rec, derived=None, root_ns=None, strip_vtx=False):
     """evaluate C01's clauses on one pipeline record; returns [(signature, clause, what)]"""
     out = _clause_failures(rec, derived, root_ns)
+    if strip_vtx:
+        # known finding: the <triangles> recreated for a loaded strip/fan repeats the inputs that
+        # <vertices> also keeps, so the reloaded primitive has them twice
+        coll, rest = [], []
+        for sig, clause, what in out:
+            if sig.startswith('C01:roundtrip:geometries.primitives.'):
+                if not coll:
+                    coll.append(('C01:roundtrip-loaded:strip-or-fan-with-vertices-inputs', 'roundtrip', what))
+            else:
+                rest.append((sig, clause, what))
+        out = coll + rest
     if root_ns not in (None, NS141) and out:
         # Documents in a non-default namespace: every save() creates and looks up elements in the
         # 1.4.1 namespace.  Either write() raises (signature ...:<exception class>), or it "succeeds"
@@ -172,6 +257,8 @@ def clause_failures(rec, derived=None, root_ns=None):
 
 def _clause_failures(rec, derived=None, root_ns=None):
     out = []
+    if rec.get('not_loadable'):
+        return out          # a generated XML document that does not load is outside C01
     if rec.get('error'):
         stage = rec.get('stage') or 'worker'
         clause = STAGE_CLAUSE.get(stage, stage)
@@ -216,8 +303,8 @@ def _clause_failures(rec, derived=None, root_ns=None):
 def failures_from(items, limit=8):
     """items: (input, record, derived, root_ns) -> one failure per distinct signature"""
     out, seen = [], set()
-    for inp, rec, derived, root_ns in items:
-        for sig, clause, what in clause_failures(rec, derived, root_ns):
+    for inp, rec, derived, root_ns, strip_vtx in items:
+        for sig, clause, what in clause_failures(rec, derived, root_ns, strip_vtx):
             if sig in seen:
                 continue
             seen.add(sig)
@@ -310,11 +397,14 @@ def evaluate(progs, results):
     items = []
     for p, r in zip(progs, results):
         root_ns = None
-        if p.get('_derive') == 'ns15':
+        derived = p.get('_derive')
+        if 'xml' in p:
+            derived, root_ns = 'xml', p.get('ns', NS141)
+        elif derived == 'ns15':
             root_ns = 'http://www.collada.org/2008/03/COLLADASchema'
-        elif p.get('_derive'):
+        elif derived:
             root_ns = NS141
-        items.append(({'program': p}, r, p.get('_derive'), root_ns))
+        items.append(({'program': p}, r, derived, root_ns, bool(p.get('_strip_with_vertices_inputs'))))
     return items
 
 
@@ -330,7 +420,7 @@ def corpus_items(files, recs):
                 ns = 'http://www.collada.org/2008/03/COLLADASchema'
         except Exception:  # noqa
             pass
-        items.append(({'corpus_file': rel}, r, 'corpus', ns))
+        items.append(({'corpus_file': rel}, r, 'corpus', ns, False))
     return items
 
 
@@ -348,6 +438,9 @@ def run(ctx):
                     progs.append(w['program'])
     ncorpus_progs = len(progs)
     progs += [gen_prog(ctx.rng, i) for i in range(nprog)]
+    nxml = 150 if quick else 2500
+    xrng = random.Random(ctx.seed + 41)
+    progs += [gen_xml_prog(xrng, i) for i in range(nxml)]
     ctx.log('running %d constructor programs (write/load x3) and the shipped documents on the implementation' % len(progs))
     results = run_progs(progs)
     files = corpus_files()
@@ -355,7 +448,7 @@ def run(ctx):
     # ---- numeric correspondence inside Coq
     terms, owners, nsrc, nidx = [], [], 0, 0
     for i, (p, r) in enumerate(zip(progs, results)):
-        if r.get('error') or p.get('_derive'):
+        if r.get('error') or p.get('_derive') or 'xml' in p:
             continue
         try:
             enc = c_case(r)
@@ -388,9 +481,19 @@ def run(ctx):
                     'explained_by_known': False} for i in bad_n[:10]]
     # ---- distribution
     feats, seen = {}, set()
-    derived = {'ns15': 0, 'noscene': 0, 'constructed': 0}
+    derived = {'ns15': 0, 'noscene': 0, 'constructed': 0, 'xml-generator': 0, 'xml-generator-not-loadable': 0,
+               'with-in-place-edits-between-writes': 0}
     nvalues = 0
     for p, r in zip(progs, results):
+        if p.get('_edits'):
+            derived['with-in-place-edits-between-writes'] += 1
+        if 'xml' in p:
+            derived['xml-generator-not-loadable' if r.get('not_loadable') else 'xml-generator'] += 1
+            if p.get('_newparams_in_technique') and not r.get('not_loadable'):
+                derived['xml-generator: newparams inside <technique>'] = derived.get('xml-generator: newparams inside <technique>', 0) + 1
+            if not r.get('not_loadable'):
+                seen.add(core.canon_hash(p['xml']))
+            continue
         fs = c01gen.features(p)
         for f in fs:
             feats[f] = feats.get(f, 0) + 1
@@ -406,7 +509,9 @@ def run(ctx):
                 'geometries with 0-3 primitives of every kind and shared/distinct/mixed/gapped input layouts, all lights and '
                 'cameras, library nodes, scenes with nested nodes, every transform and instance kind, node instancing); '
                 'source values are arbitrary doubles < 1e9 incl. the coarse float32 binades, parameters have <= 7 digits; '
-                '12 % re-read in the 1.5 namespace, 12 % without <scene>; non-trivial = at least four distinct features; '
+                '12 % re-read in the 1.5 namespace, 12 % without <scene>, 30 % of those with geometry with in-place numpy edits of '
+                'source data / bound arrays between writes; plus documents of the independent XML generator '
+                '(harness/gen/xmldocs.py) that load, taken through load -> [write, edit]* -> write -> load -> write -> load -> write; non-trivial = at least four distinct features; '
                 'distinct = different program; plus every shipped document; plus the NumFmt values compared inside Coq',
         'samples': [{'program_features': sorted(c01gen.features(p)), 'stage_error': r.get('error'), 'bytes': r.get('sizes')}
                     for p, r in list(zip(progs, results))[ncorpus_progs:ncorpus_progs + 3]],
@@ -420,7 +525,7 @@ def run(ctx):
     }
 
     def search(mm):
-        extra = [gen_prog(ctx.rng, i) for i in range(600)]
+        extra = [gen_prog(ctx.rng, i) for i in range(600)] + [gen_xml_prog(xrng, i) for i in range(300)]
         return failures_from(evaluate(extra, run_progs(extra)))
 
     return core.finish(
